@@ -312,6 +312,7 @@ def interp_pack(tj, rj):
     from pytezos.michelson.repl import Interpreter
     from pytezos.michelson.format import micheline_to_michelson
     i = Interpreter()
+    tj = {k: v for k, v in tj.items() if k != 'annots'}  # an instruction argument carries no field annotation
     ok, src = lib.call(lambda: f'PUSH {wrap(micheline_to_michelson(tj))} {wrap(micheline_to_michelson(rj))}')
     if not ok:
         return 'unprintable', None
@@ -334,6 +335,7 @@ def interp_unpack(tj, b: bytes):
     from pytezos.michelson.repl import Interpreter
     from pytezos.michelson.format import micheline_to_michelson
     i = Interpreter()
+    tj = {k: v for k, v in tj.items() if k != 'annots'}  # an instruction argument carries no field annotation
     r = i.execute(f'PUSH bytes 0x{b.hex()} ; UNPACK {wrap(micheline_to_michelson(tj))}')
     if r.error:
         return 'error', str(r.error)
@@ -382,6 +384,9 @@ UNPACKABLE = [
     ({'prim': 'option', 'args': [{'prim': 'ticket', 'args': [{'prim': 'nat'}]}]}, {'prim': 'None'}),
     ({'prim': 'or', 'args': [{'prim': 'unit'}, {'prim': 'list', 'args': [{'prim': 'operation'}]}]}, {'prim': 'Left', 'args': [{'prim': 'Unit'}]}),
     ({'prim': 'map', 'args': [{'prim': 'nat'}, {'prim': 'big_map', 'args': [{'prim': 'nat'}, {'prim': 'nat'}]}]}, []),
+    ({'prim': 'sapling_state', 'args': [{'int': '8'}]}, []),
+    ({'prim': 'contract', 'args': [{'prim': 'ticket', 'args': [{'prim': 'nat'}]}]}, {'string': 'KT18amZmM5W7qDWVt2pH6uj7sCEd3kbzLrHT'}),
+    ({'prim': 'set', 'args': [{'prim': 'nat'}]}, None),   # control: packable
 ]
 
 OCTEZ_VECTORS = [
@@ -404,7 +409,7 @@ def run(ctx: lib.Ctx) -> None:
     pack_cases, pack_meta, un_cases, un_meta = [], [], [], []
     f_push = ctx.finding('lambda-push')
 
-    def add_unpack(tj, n, T, b: bytes, kind: str, meta: dict, via_interp: bool):
+    def add_unpack(tj, n, T, b: bytes, kind: str, meta: dict, via_interp: bool, good: bytes | None = None):
         ok, ast, obj = impl_unpack(T, b)
         ctx.case((json.dumps(tj), b.hex()), nontrivial=True, kind=f'unpack:{kind}:' + ('some' if ok else 'none'))
         # (B) whatever is accepted must be 05 ++ strictly valid binary Micheline
@@ -422,6 +427,11 @@ def run(ctx: lib.Ctx) -> None:
                                repro=f"MichelsonType.match({json.dumps(tj)}).unpack(bytes.fromhex('{b.hex()}'))")))
         if via_interp:
             st, o = interp_unpack(tj, b)
+            if st == 'error' and (good is None or good == b or interp_unpack(tj, good)[0] != 'some'):
+                ctx.dist['interp:type-not-usable-as-instruction-argument'] += 1
+            elif st == 'error':
+                viols.append(('UNPACK instruction failed instead of pushing None / Some', dict(meta, bytes=b.hex(), error=str(o)[:300],
+                              repro=f"Interpreter().execute('PUSH bytes 0x{b.hex()} ; UNPACK ...')")))
             if st in ('some', 'none'):
                 ctx.dist['interp:UNPACK'] += 1
                 if (st == 'some') != ok or (ok and not (o == obj)):
@@ -471,25 +481,38 @@ def run(ctx: lib.Ctx) -> None:
             if not ok or not ok2 or not (back == obj) or ('packed' in w and obj.pack().hex() != w['packed']):
                 viols.append((f'regression of fixed defect: {f.get("what")}', {'witness': w}))
 
+    # ---- corpus of past / hand-picked byte strings
+    import glob
+    import os
+    for path in sorted(glob.glob(os.path.join(lib.VERIF, 'corpus', PROP, '*.json'))):
+        for c in json.load(open(path)):
+            okT, T = lib.call(match_type, c['type'])
+            if not okT:
+                continue
+            ctx.corpus_cases += 1
+            add_unpack(c['type'], G.norm_type(c['type']), T, bytes.fromhex(c['bytes']), 'corpus', {'type': c['type']}, False)
+
     # ---- types that cannot be packed
     for tj, val in UNPACKABLE:
         ok, T = lib.call(match_type, tj)
         if not ok:
             continue
         n = G.norm_type(tj)
+        if val is None:
+            continue
         ok1, obj = lib.call(T.from_micheline_value, copy.deepcopy(val))
         okp, _ = lib.call(obj.pack) if ok1 else (False, None)
         oku, _ = lib.call(T.unpack, b'\x05\x03\x0b')
         ctx.case(('unpackable', json.dumps(tj)), kind='not-packable')
-        if okp or oku:
-            viols.append(('a type that is not packable was packed / unpacked', {'type': tj}))
+        if okp or oku or T.is_packable():
+            viols.append(('a type that is not packable was packed / unpacked', {'type': tj, 'repro': f"MichelsonType.match({json.dumps(tj)}).is_packable()"}))
         pack_cases.append((f'({G.coq_env(G.ShaTable(), {})}, false, {G.coq_ty(n)}, VUnit)', 'Reject'))
         pack_meta.append({'type': tj, 'not_packable': True})
         un_cases.append((f'({G.coq_env(G.ShaTable(), {})}, {G.coq_ty(n)}, {chex(bytes.fromhex("05030b"))})', 'Reject'))
         un_meta.append({'type': tj, 'not_packable': True})
 
     # ---- generated values
-    nvals = ctx.n(330, 8000)
+    nvals = ctx.n(260, 2000)
     for it in range(nvals):
         depth = rng.choice([1, 2, 2, 3, 3, 4])
         while True:
@@ -550,18 +573,25 @@ def run(ctx: lib.Ctx) -> None:
             okr, readable = lib.call(lambda: b'\x05' + enc_tree(lib.canon_micheline(obj.to_micheline_value('readable'))))
             if okr and readable != packed:
                 add_unpack(tj, n, T, readable, 'readable-form', meta, False)
-        for kind, mb in mutants(rng, packed, rng.choice([2, 3, 4])):
-            add_unpack(tj, n, T, mb, kind, meta, rng.random() < 0.08)
+        for kind, mb in mutants(rng, packed, rng.choice([2, 3, 3])):
+            add_unpack(tj, n, T, mb, kind, meta, rng.random() < 0.08, good=packed)
         if len(viols) > 40:
             break
 
+    import concurrent.futures
     bad = []
-    for name, fn, eqb, ity, oty, cases, meta in [
+    jobs = [
         ('pack', PACK_FN, 'result_eqb bytes_eqb', f'{G.ENV_TY} * bool * ty * val', 'result bytes', pack_cases, pack_meta),
         ('unpack', UNPACK_FN, 'rval_eqb', f'{G.ENV_TY} * ty * bytes', 'result val', un_cases, un_meta),
-    ]:
-        for i in ctx.coq_mismatches(name, G.COQ_IMPORTS, fn, eqb, ity, oty, cases, shard=300):
-            bad.append((name, fn, cases[i], meta[i]))
+    ]
+
+    def one(job):
+        name, fn, eqb, ity, oty, cases, meta = job
+        return [(name, fn, cases[i], meta[i]) for i in ctx.coq_mismatches(name, G.COQ_IMPORTS, fn, eqb, ity, oty, cases, shard=200)]
+
+    with concurrent.futures.ThreadPoolExecutor(max_workers=2) as ex:
+        for res in ex.map(one, jobs):
+            bad.extend(res)
     ctx.extra['correspondence_mismatches'] = len(bad)
 
     reported, seen = 0, set()
